@@ -167,10 +167,10 @@ def oracle(ctx, hints, effort):
         if r:
             key = f"{r[0]}:{em}"
             findings.setdefault(key, Finding(key, f"scaled twin (a={a:.3f}) differs: {r[0]}", {"kind": "invariants", "scene": sc, "a": a, "em": em}, r[1], r[2]))
-    for it in range(2 if effort == "routine" else 12):
-        active = it % 2 == 1
+    for it in range(6 if effort == "routine" else 24):
+        active = it % 3 == 2
         sc = weak_scene(rng, active)
-        a = float(rng.choice([0.25, 4.0]))
+        a = [4.0, 0.25][it % 2]
         try:
             evals += 2
             r = check_twin(sc, a, active)
